@@ -394,8 +394,10 @@ class Interp:
         if isinstance(st, ast.While):
             out = []
             loop_id = (fn.qualname, st.lineno)
-            for q, c in self.ev(st.test, p):
-                if q.status != "normal":
+            # while c: body  ≈  zero iterations (c false), or one symbolic iteration after which the loop is left with c
+            # false (a `break` leaves without that knowledge).  The condition is recorded on the path both times.
+            for q, t in self.branch(st.test, p):
+                if q.status != "normal" or t is False:
                     out.append(q)
                     continue
                 q.ctx.append(("loop", loop_id))
@@ -403,9 +405,18 @@ class Interp:
                 for b in bodies:
                     if ("loop", loop_id) in b.ctx:
                         b.ctx.remove(("loop", loop_id))
+                    broke = b.status == "break"
                     if b.status in ("break", "continue"):
                         b.status = "normal"
-                    out.append(b)
+                    if b.status == "normal" and not broke:
+                        for b2, c2 in self.ev(st.test, b):      # the test is evaluated again …
+                            if b2.status == "normal":
+                                term, truth = _strip_not(c2, False)
+                                b2.conds.pop(term, None)
+                                b2.assume(c2, False)             # … and the loop is left because it is false now
+                            out.append(b2)
+                    else:
+                        out.append(b)
             return out
         if isinstance(st, (ast.With, ast.AsyncWith)):
             paths = [p]
